@@ -29,7 +29,7 @@ RULE = ('cases: (a) exhaustive: n in 1..N systems x priority pattern (distinct /
         '>=1 system ordered after the completer was due in the completing step; distinct by (priorities, position, timestep, tail).')
 ASSUMPTIONS = ['the clock value right after the completing step is not prescribed (the unit test counts that step); it must be frozen afterwards',
                'add_system/remove_system after completion may change the registry; only advance requests must change nothing']
-FLOORS = {'quick': {'runs_with_systems_whose_execute_is_inherited_from_a_mixin_or_bound_per_instance': 275, 'advance_requests_from_inside_the_completing_system': 212, 'cases_in_mode_debuglog': 196, 'cases_in_mode_optimised': 196, 'failing_system_exception': 205, 'failing_system_interrupt': 83, 'unrelated_model_steps_between_requests': 5332, 'system_faults_caught': 116, 'completer_raised_after_complete': 39, 'completions_after_system_fault': 83, 'models_with_quiet_logger': 308, 'completions_mid_step': 910, 'completions_outside': 75, 'later_system_due_in_completing_step': 500,
+FLOORS = {'quick': {'completions_by_a_system_registered_during_a_timestep': 100, 'runs_with_systems_whose_execute_is_inherited_from_a_mixin_or_bound_per_instance': 275, 'advance_requests_from_inside_the_completing_system': 212, 'cases_in_mode_debuglog': 196, 'cases_in_mode_optimised': 196, 'failing_system_exception': 205, 'failing_system_interrupt': 83, 'unrelated_model_steps_between_requests': 5332, 'system_faults_caught': 116, 'completer_raised_after_complete': 39, 'completions_after_system_fault': 83, 'models_with_quiet_logger': 308, 'completions_mid_step': 910, 'completions_outside': 75, 'later_system_due_in_completing_step': 500,
                     'tail_execute': 2000, 'tail_execute_n': 2000, 'tail_execute_systems': 2000, 'tail_throw': 2000,
                     'model_complete_errors': 2000, 'tail_add': 1000, 'tail_remove': 500, 'batch_driver_runs': 20,
                     'pos_first': 100, 'pos_middle': 100, 'pos_last': 100, 'multi_step_past_completion': 200, 'long_tails': 30, 'long_requests_after_completion': 1000,
@@ -472,7 +472,65 @@ def case_raising(ctx, case):
 
 
 def run_case(ctx, case):
-    {'raising': case_raising, 'ex': case_ex, 'out': case_outside, 'rand': case_rand, 'batch': case_batch, 'longtail': case_long_tail}[case['kind']](ctx, case)
+    {'raising': case_raising, 'ex': case_ex, 'out': case_outside, 'rand': case_rand, 'batch': case_batch, 'longtail': case_long_tail,
+     'spawn': lambda c_, k_: case_spawn(c_, k_)}[case['kind']](ctx, case)
+
+
+def case_spawn(ctx, case):
+    """Systems that are registered from inside a timestep (by a system) - several at once - and one of them completes the model the
+    first time it runs, in whichever timestep the scheduler first gives it a turn: nothing runs after that call, the clock stops."""
+    rng = ctx.rng('spawn', case['i'])
+    core, collectors, Logger = fixtures()
+    model = new_model(ctx, rng, core)
+    log = []
+
+    class FirstTurnCompleter(Logger):
+        def execute(self):
+            self.log.append((self.model.systems.timestep, self.id))
+            self.model.complete()
+
+    class Spawner(Logger):
+        def execute(self):
+            t = self.model.systems.timestep
+            self.log.append((t, self.id))
+            if t == self.when:
+                for s_ in self.batch:
+                    self.model.systems.add_system(s_)
+
+    n_old = rng.randint(0, 4)
+    for j in range(n_old):
+        model.systems.add_system(Logger(f's{j}', model, log, priority=rng.randint(-3, 3)))
+    ts = rng.randint(0, 3)
+    sp = Spawner('spawner', model, log, when=None, priority=rng.randint(-3, 3))
+    sp.when = ts
+    k = rng.randint(2, 5)
+    prios = [rng.randint(-4, 4) for _ in range(k)]
+    if rng.random() < 0.5:
+        prios = [rng.choice([-5, 5, sp.priority])] * k          # one batch of equal priority, all before / behind / level with the spawner
+    who = rng.randrange(k)
+    sp.batch = [(FirstTurnCompleter if j == who else Logger)(f'new{j}', model, log, priority=prios[j]) for j in range(k)]
+    model.systems.add_system(sp)
+    for j in range(rng.randint(0, 2)):
+        model.systems.add_system(Logger(f'behind{j}', model, log, priority=rng.randint(-3, 3)))
+    steps = 0
+    while model.is_running() and steps < ts + 4:
+        model.execute()
+        steps += 1
+    ctx.ev()
+    check(not model.is_running(), 'the completing system registered from inside a timestep never got a turn within 3 timesteps of its registration',
+          log=log[-10:], registered_at=ts)
+    done = [i for i, (t, sid) in enumerate(log) if sid == f'new{who}']
+    check(len(done) == 1, 'the completing system ran more than once', log=log[-10:])
+    if done[0] != len(log) - 1:
+        raise CaseViolation('systems ran after a system that had been registered during a timestep called complete() on its first turn: the remaining '
+                            'systems of that timestep must be skipped', ran_afterwards=log[done[0] + 1:], completer=f'new{who}',
+                            batch=[(s_.id, s_.priority) for s_ in sp.batch], spawner_priority=sp.priority, registered_at=ts)
+    ctx.count('completions_by_a_system_registered_during_a_timestep')
+    if log[done[0]][0] == ts:
+        ctx.count('completer_ran_in_the_timestep_it_was_registered_in')
+    clock = (model.timestep, model.systems.timestep)
+    tail(ctx, rng, core, Logger, model, log)
+    check((model.timestep, model.systems.timestep) == clock, 'clock moved after completion', before=clock, after=(model.timestep, model.systems.timestep))
 
 
 def patterns(n):
@@ -508,6 +566,9 @@ def run(ctx):
     for i in range(N_RANDOM[ctx.tier] // 5):
         if ctx.mine(i) and not ctx.full():
             ctx.run_case({'kind': 'raising', 'i': i}, run_case)
+    for i in range(N_RANDOM[ctx.tier] // 5):
+        if ctx.mine(i) and not ctx.full():
+            ctx.run_case({'kind': 'spawn', 'i': i}, run_case)
 
 
 def replay(ctx, case):
